@@ -245,6 +245,26 @@ func registerOverrides(e *Engine) {
 		}
 		return nil
 	})
+	e.reg(zz+"Foreground", func(in *interp, fr *frame, a []value) value {
+		// threads whose function name contains the substring take part in schedule exploration
+		sub := in.str(a[0])
+		for _, t := range in.sch.threads {
+			if strings.Contains(t.name, sub) {
+				t.background = false
+			}
+		}
+		return nil
+	})
+	e.reg(zz+"FireTickers", func(in *interp, fr *frame, a []value) value {
+		in.sch.yield("FireTickers")
+		for _, ch := range in.tickers {
+			if len(ch.buf) < ch.capacity && !ch.closed {
+				ch.buf = append(ch.buf, in.now())
+				in.sch.wepoch++
+			}
+		}
+		return nil
+	})
 	e.reg(zz+"StopExploring", func(in *interp, fr *frame, a []value) value {
 		in.sch.explore = false
 		for _, t := range in.sch.threads {
